@@ -75,7 +75,7 @@ func c17Calls(t *ref.Table, pool []string) []call {
 			x = append(x, call{p, []string{m}})
 		}
 	}
-	lists := [][]string{{"GET", "GET"}, {"POST", "GET"}, {"PATCH", "GET"}, {"PATCH", "BOGUS"}, {"BOGUS", "PATCH"}, {"PATCH", "HEAD"}, {"PATCH", "OPTIONS"}, {"PATCH", "TRACE"}, {"get"}, {""}, {"PATCH", ""}, {"HEAD"}, {"OPTIONS"}}
+	lists := [][]string{nil /* Any */, {"GET", "GET"}, {"POST", "GET"}, {"PATCH", "GET"}, {"PATCH", "BOGUS"}, {"BOGUS", "PATCH"}, {"PATCH", "HEAD"}, {"PATCH", "OPTIONS"}, {"PATCH", "TRACE"}, {"get"}, {""}, {"PATCH", ""}, {"HEAD"}, {"OPTIONS"}}
 	targets := append([]string{}, pool...)
 	targets = append(targets, "/posts/au", "/new", "/p/{x}/yy", "/p/{x}/w", "/p/{x}-w")
 	for _, p := range targets {
